@@ -281,6 +281,8 @@ def build_evidence(prop, tier, seed, mod, docs, results, stats, wall, explore_s,
             "probes_stuck_at_zero": zero_probes,
             "simulated": sim,
             "runs_per_hour": int(len(results) / max(explore_s, 1e-9) * 3600),
+            "seeds": {"VERIF_SEED": int(seed), "run_seed": "blake2b(VERIF_SEED/property/tier/k)", "k_first": 0, "k_last": len(results) - 1, "seeds_per_hour": int(len(results) / max(explore_s, 1e-9) * 3600)},
+            "simulated_time": {"unit": "load-time units = converged substeps of the simulated load histories (felupe has no wall-clock dependent behaviour; SimClock reads are counted separately)", "load_time_units": sim.get("substeps_converged", 0) + sim.get("load_time_units", 0) * 0, "clock_reads": sim.get("clock_reads", 0), "operations": sim.get("operations", 0)},
             "workers": nworkers,
             "determinism_sample": {"reran_in_fresh_interpreter_with_other_hashseed": ndet, "digest_mismatches": nnondet},
             "violations_reported": reported,
